@@ -349,6 +349,17 @@ let handle (case : sx) : string =
                    (match p.p_mode with RNew -> "NEW" | RNothing -> "NOTHING" | ROverwrite -> "OVERWRITE");
                    (match p.p_stdout with OutNone -> "none" | OutHuman -> "human" | OutJson -> "json" | OutFormattedJson -> "fjson");
                    bl p.p_jsonfile; bl p.p_fjsonfile])
+  | L (A id :: A "json" :: ast :: L texts :: rest) ->
+      (* compact and tab-indented JSON of the model's result list, per text *)
+      (match compile_ast (program_of ast) with
+       | GErr e -> id ^ "\t" ^ paren ["err"; sx_generr e]
+       | GOk bc ->
+           let fuel = fuel_of_opt rest in
+           let outs = List.map (fun t ->
+             match run_commands fuel (by_of t) bc with
+             | ROk ms -> let j = matches_json text_name ms in paren [atom_of_bytes (compact j); atom_of_bytes (indent O j)]
+             | _ -> "(none)") texts in
+           id ^ "\t" ^ paren ["ok"; paren outs])
   | L (A id :: A "pm" :: pat :: [L names]) ->
       id ^ "\t" ^ paren (List.map (fun nm -> bl (pm (by_of nm) (by_of pat))) names)
   | L (A id :: A "glob" :: tree :: [L pats]) ->
